@@ -26,6 +26,20 @@ func init() {
 }
 
 func runC16(e *Env) {
+	// what the conversion methods and users call is the package-level Formatter: it is the DefaultFormatter decided
+	// below, and nothing in the module rebinds it (a wrapper that formats into buf[:0] would drop the caller's bytes)
+	for _, pkg := range ValuePkgs {
+		gv := e.Var("C16.entry", pkg, "Formatter")
+		if gv == nil {
+			continue
+		}
+		if f := e.C.GlobalFuncInit(gv); f == nil || flow.Origin(f) != e.F(pkg, "DefaultFormatter") {
+			e.S.Bad("C16.entry", pkg+".Formatter", "initialiser", "the package-level Formatter is not initialised to DefaultFormatter or is reassigned inside the module: the buffer rules below are decided for DefaultFormatter only", "", "")
+		} else {
+			e.S.Ok("C16.entry", pkg+".Formatter", "initialiser", "= DefaultFormatter, never reassigned inside the module", "")
+		}
+	}
+	e.S.Floor("C16.entry", 5)
 	fs := funcs(
 		e.Fn("C16.append", "date", "DefaultFormatter"),
 		e.Fn("C16.append", "roman", "DefaultFormatter"),
@@ -112,6 +126,28 @@ func ruleURN(e *Env) {
 	}
 	df := e.F("uu", "DefaultFormatter")
 	calls := e.C.Calls(fn, func(f *ssa.Function) bool { return f == df })
+	// the property's own wording: the prefix constant followed by the plain rendering, URNPrefix + i.String()
+	if len(calls) == 0 {
+		if str := e.P.Method("uu", "ID", "String"); str != nil {
+			rets := flow.Returns(fn)
+			if len(rets) == 1 && len(rets[0].Results) == 1 {
+				if cat, ok := rets[0].Results[0].(*ssa.BinOp); ok && cat.Op == token.ADD {
+					lit, okL := flow.ConstString(cat.X)
+					sc, okC := cat.Y.(*ssa.Call)
+					if okL && okC && e.C.StaticCallee(&sc.Call) == str && len(sc.Call.Args) == 1 && sc.Call.Args[0] == ssa.Value(fn.Params[0]) {
+						if lit == prefix {
+							e.S.Ok(rule, site, "prefix-literal", "URN is URNPrefix + the receiver's String()", e.Pos(fn))
+						} else {
+							e.S.Bad(rule, site, "prefix-literal", "URN prepends "+quote(lit)+" but URNPrefix is "+quote(prefix), e.Pos(fn), lit)
+						}
+						e.S.Ok(rule, site, "flag", "the plain rendering is the receiver's String() (flag 0: C05.deleg)", e.Pos(fn))
+						e.S.Ok(rule, site, "result", "the concatenation is returned", e.Pos(fn))
+						return
+					}
+				}
+			}
+		}
+	}
 	if len(calls) != 1 {
 		e.S.Unk(rule, site, "call", "URN does not make exactly one call to uu.DefaultFormatter (idioms: direct call with a literal prefix buffer)", e.Pos(fn))
 		return
